@@ -25,6 +25,8 @@ import (
 	"fmt"
 	"os"
 	"path/filepath"
+	"runtime"
+	"runtime/debug"
 	"sort"
 	"strconv"
 	"strings"
@@ -47,6 +49,9 @@ var drivers = func() []string {
 }()
 
 func TestMain(m *testing.M) {
+	// an open Badger store holds ~0.5 GB of arenas and caches; keep the garbage on top
+	// of that small (16 shards run at once in the thorough tier)
+	debug.SetGCPercent(40)
 	code := pbt.Main(m, pbt.Meta{
 		Property: "C10",
 		Level:    "exploration",
@@ -371,6 +376,11 @@ func store(t pbt.TB, drv string) *handle {
 		os.RemoveAll(h.dir)
 		delete(handles, drv)
 		h = nil
+		// a closed Badger store (64 MB arenas, caches) is only collectable after its
+		// finalizers ran: collect twice and hand the memory back, or 16 shards hold
+		// more than a gigabyte each
+		runtime.GC()
+		debug.FreeOSMemory()
 	}
 	if h != nil {
 		clean, why := h.wipe()
@@ -446,9 +456,9 @@ type runner struct {
 	st    *stats
 
 	// iterator-program state (driver mode)
-	alive0         bool   // still judged against the model (false: against the pre-transaction state)
-	prevPos        string // the driver's last valid position
-	seekRec        int    // record of the program's last seek, -1 if none
+	alive0  bool   // still judged against the model (false: against the pre-transaction state)
+	prevPos string // the driver's last valid position
+	seekRec int    // record of the program's last seek, -1 if none
 
 	txStep, itStep int // position inside the current call (for messages), -1 if not inside
 }
